@@ -103,12 +103,24 @@ Proof.
   rewrite val_snoc'. unfold len. rewrite Llo. fold P. nia.
 Qed.
 
+Lemma BB_pow2 : BB ^ Z.of_nat 2 = BB * BB.
+Proof. change (Z.of_nat 2) with 2. apply Z.pow_2_r. Qed.
+
 Lemma sixteen_facts (n : nat) : (16 <= n)%nat ->
   let n3 := ((n + 2) / 3)%nat in (2 * n3 <= n /\ n <= 3 * n3 /\ n3 + 1 < n /\ 6 <= n3 /\ 5 * n3 + 2 <= 2 * n)%nat.
 Proof.
   intros Hn n3. subst n3.
   pose proof (Nat.div_mod (n + 2) 3 ltac:(lia)). pose proof (Nat.mod_upper_bound (n + 2) 3 ltac:(lia)). lia.
 Qed.
+
+(** Side conditions of [toom3w_ok] are discharged in a context reduced to the facts about lengths
+    (resp. about the deferred carries): with the ~300 hypotheses of that proof, zify's case analysis on
+    every natural subtraction in the context makes a plain [lia] take tens of minutes. *)
+Ltac keep_nat := repeat match goal with H : ?T |- _ => lazymatch T with
+  | (_ <= _)%nat => fail | (_ < _)%nat => fail | @eq nat _ _ => fail | _ => clear H end end.
+Ltac keep_carry := repeat match goal with H : ?T |- _ => lazymatch T with
+  | (-1 <= _ <= 1) => fail | (256 <= _) => fail | (0 < _) => fail | _ => clear H end end.
+Ltac flia := first [ solve [keep_nat; lia] | solve [keep_carry; lia] | lia ].
 
 Theorem toom3w_ok (rec_same : mulfn) c s a b :
   pre w c a b -> length a = length b -> (16 <= length a)%nat -> same_ok w rec_same (length a) ->
@@ -120,108 +132,108 @@ Proof.
   set (n := length a) in *. set (n3 := ((n + 2) / 3)%nat) in *.
   set (a0 := firstn n3 a). set (a1 := slice n3 n3 a). set (a2 := skipn (2 * n3) a).
   set (b0 := firstn n3 b). set (b1 := slice n3 n3 b). set (b2 := skipn (2 * n3) b).
-  assert (La0 : length a0 = n3) by (subst a0; rewrite firstn_length_le; lia).
-  assert (Lb0 : length b0 = n3) by (subst b0; rewrite firstn_length_le; lia).
-  assert (La1 : length a1 = n3) by (subst a1; apply slice_length; lia).
-  assert (Lb1 : length b1 = n3) by (subst b1; apply slice_length; lia).
-  assert (La2 : length a2 = (n - 2 * n3)%nat) by (subst a2; rewrite skipn_length; lia).
-  assert (Lb2 : length b2 = (n - 2 * n3)%nat) by (subst b2; rewrite skipn_length; lia).
+  assert (La0 : length a0 = n3) by (subst a0; rewrite firstn_length_le; flia).
+  assert (Lb0 : length b0 = n3) by (subst b0; rewrite firstn_length_le; flia).
+  assert (La1 : length a1 = n3) by (subst a1; apply slice_length; flia).
+  assert (Lb1 : length b1 = n3) by (subst b1; apply slice_length; flia).
+  assert (La2 : length a2 = (n - 2 * n3)%nat) by (subst a2; rewrite skipn_length; flia).
+  assert (Lb2 : length b2 = (n - 2 * n3)%nat) by (subst b2; rewrite skipn_length; flia).
   assert (Wa0 : wfw a0) by (apply wf_firstn; auto). assert (Wb0 : wfw b0) by (apply wf_firstn; auto).
   assert (Wa1 : wfw a1) by (apply wf_slice; auto). assert (Wb1 : wfw b1) by (apply wf_slice; auto).
   assert (Wa2 : wfw a2) by (apply wf_skipn; auto). assert (Wb2 : wfw b2) by (apply wf_skipn; auto).
   set (X := BB ^ Z.of_nat n3) in *.
   assert (HX : 0 < X) by apply pow_nat_pos, w_ge.
   assert (Sa : val a = val a0 + X * val a1 + X * X * val a2).
-  { rewrite (split3 n3 n3 a) at 1. fold a0 a1. replace (n3 + n3)%nat with (2 * n3)%nat by lia. fold a2.
+  { rewrite (split3 n3 n3 a) at 1. fold a0 a1. replace (n3 + n3)%nat with (2 * n3)%nat by flia. fold a2.
     rewrite !value_app. unfold len. rewrite La0, La1. fold X. ring. }
   assert (Sb : val b = val b0 + X * val b1 + X * X * val b2).
-  { rewrite (split3 n3 n3 b) at 1. fold b0 b1. replace (n3 + n3)%nat with (2 * n3)%nat by lia. fold b2.
+  { rewrite (split3 n3 n3 b) at 1. fold b0 b1. replace (n3 + n3)%nat with (2 * n3)%nat by flia. fold b2.
     rewrite !value_app. unfold len. rewrite Lb0, Lb1. fold X. ring. }
   pose proof (val_lt_pow w w_ge a0 n3 Wa0 La0) as Ba0. pose proof (val_lt_pow w w_ge a1 n3 Wa1 La1) as Ba1.
   pose proof (val_lt_pow w w_ge b0 n3 Wb0 Lb0) as Bb0. pose proof (val_lt_pow w w_ge b1 n3 Wb1 Lb1) as Bb1.
   assert (Ba2 : 0 <= val a2 < X).
-  { pose proof (val_lt_pow w w_ge a2 _ Wa2 La2) as H. split; [lia|]. eapply Z.lt_le_trans; [apply H|]. apply Z.pow_le_mono_r; lia. }
+  { pose proof (val_lt_pow w w_ge a2 _ Wa2 La2) as H. split; [flia|]. eapply Z.lt_le_trans; [apply H|]. apply Z.pow_le_mono_r; flia. }
   assert (Bb2 : 0 <= val b2 < X).
-  { pose proof (val_lt_pow w w_ge b2 _ Wb2 Lb2) as H. split; [lia|]. eapply Z.lt_le_trans; [apply H|]. apply Z.pow_le_mono_r; lia. }
+  { pose proof (val_lt_pow w w_ge b2 _ Wb2 Lb2) as H. split; [flia|]. eapply Z.lt_le_trans; [apply H|]. apply Z.pow_le_mono_r; flia. }
   fold X in Ba0, Ba1, Bb0, Bb1.
   assert (PS : BB ^ Z.of_nat (S n3) = BB * X) by apply pow_nat_S.
   set (m := (2 * n3 + 2)%nat) in *.
   assert (Pm : BB ^ Z.of_nat m = BB * BB * (X * X)).
-  { subst m. replace (2 * n3 + 2)%nat with (S n3 + S n3)%nat by lia. rewrite pow_nat_add, PS. ring. }
+  { subst m. replace (2 * n3 + 2)%nat with (S n3 + S n3)%nat by flia. rewrite pow_nat_add, PS. ring. }
   assert (P2 : BB ^ Z.of_nat (2 * n3) = X * X).
-  { replace (2 * n3)%nat with (n3 + n3)%nat by lia. rewrite pow_nat_add. reflexivity. }
+  { replace (2 * n3)%nat with (n3 + n3)%nat by flia. rewrite pow_nat_add. reflexivity. }
   set (A0 := val a0) in *. set (A1 := val a1) in *. set (A2 := val a2) in *.
   set (B0 := val b0) in *. set (B1 := val b1) in *. set (B2 := val b2) in *.
-  assert (Lc : length c = (2 * n)%nat) by lia.
+  assert (Lc : length c = (2 * n)%nat) by flia.
   (* ---- V(0) *)
-  destruct (product_ok w w_ge rec_same (2 * n3) a0 b0 Wa0 Wb0 ltac:(lia)) as (t1s & E0 & Lt1s & Wt1s & Vt1s).
-  { apply Hrec; [repeat split; auto; [apply wf_repeat_zero, w_pos | rewrite repeat_length; lia] | lia | lia]. }
+  destruct (product_ok w w_ge rec_same (2 * n3) a0 b0 Wa0 Wb0 ltac:(flia)) as (t1s & E0 & Lt1s & Wt1s & Vt1s).
+  { apply Hrec; [repeat split; auto; [apply wf_repeat_zero, w_pos | rewrite repeat_length; flia] | flia | flia]. }
   rewrite E0. cbn [rbind]. fold A0 B0 in Vt1s.
   destruct (add_signed_same_len_in_place w (slice 0 (2 * n3) c) s t1s) as [x1 k0] eqn:E1.
-  destruct (step_signed_same w w_ge c 0 (2 * n3) s t1s x1 k0 ltac:(lia) Hc Wt1s Lt1s E1) as (L1 & W1 & K0 & V1).
+  destruct (step_signed_same w w_ge c 0 (2 * n3) s t1s x1 k0 ltac:(flia) Hc Wt1s Lt1s E1) as (L1 & W1 & K0 & V1).
   set (c1 := splice 0 x1 c) in *.
   destruct (add_signed_in_place w (slice (2 * n3) m c1) (sign_neg s) t1s) as [x2 k2a] eqn:E2.
-  destruct (step_signed w w_ge c1 (2 * n3) m (sign_neg s) t1s x2 k2a ltac:(lia) W1 Wt1s ltac:(lia) E2) as (L2 & W2 & K2a & V2).
+  destruct (step_signed w w_ge c1 (2 * n3) m (sign_neg s) t1s x2 k2a ltac:(flia) W1 Wt1s ltac:(flia) E2) as (L2 & W2 & K2a & V2).
   set (c2 := splice (2 * n3) x2 c1) in *.
   destruct (mul_word_in_place w t1s 3) as [t1s3 cw3] eqn:E3.
-  destruct (mul_word_in_place_spec w w_ge t1s 3 Wt1s ltac:(lia) _ _ E3) as (Lt3 & Wt3 & Bcw3 & Vt3).
+  destruct (mul_word_in_place_spec w w_ge t1s 3 Wt1s ltac:(flia) _ _ E3) as (Lt3 & Wt3 & Bcw3 & Vt3).
   assert (Wt1i : wfw (t1s3 ++ [cw3; 0])).
-  { apply wf_app. split; [auto|]. apply wf_cons; split; [lia|]. apply wf_cons; split; [lia | apply wf_nil]. }
-  assert (Lt1i : length (t1s3 ++ [cw3; 0]) = m) by (rewrite app_length; cbn [length]; lia).
+  { apply wf_app. split; [auto|]. apply wf_cons; split; [flia|]. apply wf_cons; split; [flia | apply wf_nil]. }
+  assert (Lt1i : length (t1s3 ++ [cw3; 0]) = m) by (rewrite app_length; cbn [length]; flia).
   assert (Vt1i : val (t1s3 ++ [cw3; 0]) = 3 * (A0 * B0)).
-  { rewrite value_app. cbn [value]. rewrite (len_eq t1s3 t1s Lt3). lia. }
+  { rewrite value_app. cbn [value]. rewrite (len_eq t1s3 t1s Lt3). flia. }
   (* ---- V(2) *)
-  destruct (eval2_spec a0 a1 a2 Wa0 Wa1 Wa2 ltac:(lia) ltac:(lia)) as (Le2a & We2a & Ve2a).
-  destruct (eval2_spec b0 b1 b2 Wb0 Wb1 Wb2 ltac:(lia) ltac:(lia)) as (Le2b & We2b & Ve2b).
+  destruct (eval2_spec a0 a1 a2 Wa0 Wa1 Wa2 ltac:(flia) ltac:(flia)) as (Le2a & We2a & Ve2a).
+  destruct (eval2_spec b0 b1 b2 Wb0 Wb1 Wb2 ltac:(flia) ltac:(flia)) as (Le2b & We2b & Ve2b).
   fold A0 A1 A2 in Ve2a. fold B0 B1 B2 in Ve2b. rewrite La0 in Le2a. rewrite Lb0 in Le2b.
   set (a_e2 := eval2 w a0 a1 a2) in *. set (b_e2 := eval2 w b0 b1 b2) in *.
-  assert (Pre2 : pre w (t1s3 ++ [cw3; 0]) a_e2 b_e2) by (repeat split; auto; lia).
+  assert (Pre2 : pre w (t1s3 ++ [cw3; 0]) a_e2 b_e2) by (repeat split; auto; flia).
   destruct (accum_ok w w_ge rec_same _ a_e2 b_e2 Pre2) as (t1a & E4 & Lt1a & Wt1a & Vt1a).
-  { apply Hrec; [exact Pre2 | lia | lia]. }
+  { apply Hrec; [exact Pre2 | flia | flia]. }
   { unfold len. rewrite Lt1i, Pm, Vt1i, Ve2a, Ve2b. nia. }
   rewrite E4. cbn [rbind]. rewrite Vt1i, Ve2a, Ve2b in Vt1a. rewrite Lt1i in Lt1a.
   (* ---- V(inf) *)
-  destruct (product_ok w w_ge rec_same (2 * (n - 2 * n3)) a2 b2 Wa2 Wb2 ltac:(lia)) as (csh & E5 & Lcsh & Wcsh & Vcsh).
-  { apply Hrec; [repeat split; auto; [apply wf_repeat_zero, w_pos | rewrite repeat_length; lia] | lia | lia]. }
+  destruct (product_ok w w_ge rec_same (2 * (n - 2 * n3)) a2 b2 Wa2 Wb2 ltac:(flia)) as (csh & E5 & Lcsh & Wcsh & Vcsh).
+  { apply Hrec; [repeat split; auto; [apply wf_repeat_zero, w_pos | rewrite repeat_length; flia] | flia | flia]. }
   rewrite E5. cbn [rbind]. fold A2 B2 in Vcsh.
   destruct (add_signed_in_place w (slice (2 * n3) m c2) (sign_neg s) csh) as [x3 k2b] eqn:E6.
-  destruct (step_signed w w_ge c2 (2 * n3) m (sign_neg s) csh x3 k2b ltac:(lia) W2 Wcsh ltac:(lia) E6) as (L3 & W3 & K2b & V3).
+  destruct (step_signed w w_ge c2 (2 * n3) m (sign_neg s) csh x3 k2b ltac:(flia) W2 Wcsh ltac:(flia) E6) as (L3 & W3 & K2b & V3).
   set (c3 := splice (2 * n3) x3 c2) in *.
   destruct (add_signed_same_len_in_place w (slice (4 * n3) (length c3 - 4 * n3) c3) s csh) as [x4 kc] eqn:E7.
-  destruct (step_signed_same w w_ge c3 (4 * n3) (length c3 - 4 * n3) s csh x4 kc ltac:(lia) W3 Wcsh ltac:(lia) E7) as (L4 & W4 & Kc & V4).
+  destruct (step_signed_same w w_ge c3 (4 * n3) (length c3 - 4 * n3) s csh x4 kc ltac:(flia) W3 Wcsh ltac:(flia) E7) as (L4 & W4 & Kc & V4).
   set (c4 := splice (4 * n3) x4 c3) in *.
   destruct (mul_word_in_place w csh 12) as [cs12 cw12] eqn:E8.
-  destruct (mul_word_in_place_spec w w_ge csh 12 Wcsh ltac:(lia) _ _ E8) as (L12 & W12 & Bcw12 & V12).
+  destruct (mul_word_in_place_spec w w_ge csh 12 Wcsh ltac:(flia) _ _ E8) as (L12 & W12 & Bcw12 & V12).
   assert (W12' : wfw (cs12 ++ [cw12])) by (apply wf_snoc'; auto).
-  assert (V12' : val (cs12 ++ [cw12]) = 12 * (A2 * B2)) by (rewrite val_snoc', (len_eq cs12 csh L12); lia).
+  assert (V12' : val (cs12 ++ [cw12]) = 12 * (A2 * B2)) by (rewrite val_snoc', (len_eq cs12 csh L12); flia).
   destruct (sub_in_place w t1a (cs12 ++ [cw12])) as [t1b borrow] eqn:E9.
-  destruct (sub_in_place_spec w w_pos t1a (cs12 ++ [cw12]) ltac:(rewrite app_length; cbn [length]; lia) Wt1a W12' _ _ E9) as (Lt1b & Wt1b & Vt1b).
+  destruct (sub_in_place_spec w w_pos t1a (cs12 ++ [cw12]) ltac:(rewrite app_length; cbn [length]; flia) Wt1a W12' _ _ E9) as (Lt1b & Wt1b & Vt1b).
   rewrite V12', Vt1a in Vt1b. rewrite Lt1a in Lt1b.
   pose proof (value_bounds w w_pos t1b Wt1b) as Bt1b. unfold len in Bt1b, Vt1b. rewrite Lt1b in Bt1b. rewrite Lt1a in Vt1b. rewrite Pm in Bt1b, Vt1b.
   destruct borrow; cbn [b2z] in Vt1b; [exfalso; nia|].
   (* ---- V(1) *)
-  destruct (eval02_spec a0 a2 Wa0 Wa2 ltac:(lia)) as (L02a & W02a & V02a).
-  destruct (eval02_spec b0 b2 Wb0 Wb2 ltac:(lia)) as (L02b & W02b & V02b).
+  destruct (eval02_spec a0 a2 Wa0 Wa2 ltac:(flia)) as (L02a & W02a & V02a).
+  destruct (eval02_spec b0 b2 Wb0 Wb2 ltac:(flia)) as (L02b & W02b & V02b).
   fold A0 A2 in V02a. fold B0 B2 in V02b. rewrite La0 in L02a. rewrite Lb0 in L02b.
   set (a02 := eval02 w a0 a2) in *. set (b02 := eval02 w b0 b2) in *.
-  destruct (eval1_spec a02 a1 n3 W02a Wa1 L02a La1 ltac:(fold X; lia)) as (Le1a & We1a & Ve1a).
-  destruct (eval1_spec b02 b1 n3 W02b Wb1 L02b Lb1 ltac:(fold X; lia)) as (Le1b & We1b & Ve1b).
+  destruct (eval1_spec a02 a1 n3 W02a Wa1 L02a La1 ltac:(fold X; flia)) as (Le1a & We1a & Ve1a).
+  destruct (eval1_spec b02 b1 n3 W02b Wb1 L02b Lb1 ltac:(fold X; flia)) as (Le1b & We1b & Ve1b).
   fold A1 in Ve1a. fold B1 in Ve1b. rewrite V02a in Ve1a. rewrite V02b in Ve1b.
   set (a_e1 := eval1 w a02 a1 n3) in *. set (b_e1 := eval1 w b02 b1 n3) in *.
-  destruct (product_ok w w_ge rec_same m a_e1 b_e1 We1a We1b ltac:(lia)) as (t2a & E10 & Lt2a & Wt2a & Vt2a).
-  { apply Hrec; [repeat split; auto; [apply wf_repeat_zero, w_pos | rewrite repeat_length; lia] | lia | lia]. }
+  destruct (product_ok w w_ge rec_same m a_e1 b_e1 We1a We1b ltac:(flia)) as (t2a & E10 & Lt2a & Wt2a & Vt2a).
+  { apply Hrec; [repeat split; auto; [apply wf_repeat_zero, w_pos | rewrite repeat_length; flia] | flia | flia]. }
   rewrite E10. cbn [rbind]. rewrite Ve1a, Ve1b in Vt2a.
   destruct (add_signed_in_place w (slice n3 m c4) s t2a) as [x5 k1a] eqn:E11.
-  destruct (step_signed w w_ge c4 n3 m s t2a x5 k1a ltac:(lia) W4 Wt2a ltac:(lia) E11) as (L5 & W5 & K1a & V5).
+  destruct (step_signed w w_ge c4 n3 m s t2a x5 k1a ltac:(flia) W4 Wt2a ltac:(flia) E11) as (L5 & W5 & K1a & V5).
   set (c5 := splice n3 x5 c4) in *.
   (* ---- V(-1) *)
   destruct (sub_in_place_with_sign w a02 a1) as [a_em sa] eqn:E12.
-  destruct (sub_in_place_with_sign_spec w w_pos a02 a1 ltac:(lia) W02a Wa1 _ _ E12) as (Lema & Wema & Vema).
+  destruct (sub_in_place_with_sign_spec w w_pos a02 a1 ltac:(flia) W02a Wa1 _ _ E12) as (Lema & Wema & Vema).
   destruct (sub_in_place_with_sign w b02 b1) as [b_em sb] eqn:E13.
-  destruct (sub_in_place_with_sign_spec w w_pos b02 b1 ltac:(lia) W02b Wb1 _ _ E13) as (Lemb & Wemb & Vemb).
+  destruct (sub_in_place_with_sign_spec w w_pos b02 b1 ltac:(flia) W02b Wb1 _ _ E13) as (Lemb & Wemb & Vemb).
   fold A1 in Vema. fold B1 in Vemb. rewrite V02a in Vema. rewrite V02b in Vemb. unfold signed in Vema, Vemb.
-  destruct (product_ok w w_ge rec_same (2 * (n3 + 1)) a_em b_em Wema Wemb ltac:(lia)) as (cev & E14 & Lcev & Wcev & Vcev).
-  { apply Hrec; [repeat split; auto; [apply wf_repeat_zero, w_pos | rewrite repeat_length; lia] | lia | lia]. }
+  destruct (product_ok w w_ge rec_same (2 * (n3 + 1)) a_em b_em Wema Wemb ltac:(flia)) as (cev & E14 & Lcev & Wcev & Vcev).
+  { apply Hrec; [repeat split; auto; [apply wf_repeat_zero, w_pos | rewrite repeat_length; flia] | flia | flia]. }
   rewrite E14. cbn [rbind].
   set (vs := sign_mul sa sb) in *.
   assert (Vm1 : sgnz vs * val cev = (A0 + A2 - A1) * (B0 + B2 - B1)).
@@ -240,7 +252,7 @@ Proof.
   assert (Vone : (A0 + A2 + A1) * (B0 + B2 + B1) = c0 + q1 + q2 + q3 + c4') by (subst c0 q1 q2 q3 c4'; ring).
   (* t2 += V(-1) *)
   destruct (add_signed_same_len_in_place w t2a vs cev) as [t2b kt2] eqn:E15.
-  destruct (add_signed_same_len_in_place_spec w w_pos t2a vs cev ltac:(lia) Wt2a Wcev _ _ E15) as (U15 & _).
+  destruct (add_signed_same_len_in_place_spec w w_pos t2a vs cev ltac:(flia) Wt2a Wcev _ _ E15) as (U15 & _).
   assert (Kt2 : kt2 = 0).
   { apply (upd_carry_range w w_pos t2a t2b kt2 _ Wt2a U15). unfold len. rewrite Lt2a, Pm, Vt2a, Vm1, T2.
     clear - C0 C2 C4 HB2 HX. nia. }
@@ -254,49 +266,49 @@ Proof.
                   end) = (t1c, 0) /\ length t1c = m /\ wfw t1c /\ val t1c = (c0 + q2 + q3 + c4') * 6).
   { destruct vs; cbn [sgnz] in S6.
     - destruct (add_mul_word_same_len_in_place w t1b 2 cev) as [t1c k] eqn:E16.
-      destruct (add_mul_word_same_len_spec w w_ge t1b 2 cev ltac:(lia) Wt1b Wcev ltac:(lia) _ _ E16) as (Lc' & Wc' & Bk & Vc').
+      destruct (add_mul_word_same_len_spec w w_ge t1b 2 cev ltac:(flia) Wt1b Wcev ltac:(flia) _ _ E16) as (Lc' & Wc' & Bk & Vc').
       pose proof (value_bounds w w_pos t1c Wc') as Bc'. rewrite (len_eq t1c t1b Lc') in Bc'. unfold len in Bc', Vc'. rewrite Lt1b, Pm in Bc', Vc'.
       assert (k = 0) by (clear - Vc' S6 Bc' Bk C0 C2 C3 C4 HB2 HX; nia). subst k.
       exists t1c. split; [reflexivity|]. split; [lia|]. split; [exact Wc'|]. clear - Vc' S6. lia.
     - destruct (sub_mul_word_same_len_in_place w t1b 2 cev) as [t1c k] eqn:E16.
-      destruct (sub_mul_word_same_len_spec w w_ge t1b 2 cev ltac:(lia) Wt1b Wcev ltac:(lia) _ _ E16) as (Lc' & Wc' & Bk & Vc').
+      destruct (sub_mul_word_same_len_spec w w_ge t1b 2 cev ltac:(flia) Wt1b Wcev ltac:(flia) _ _ E16) as (Lc' & Wc' & Bk & Vc').
       pose proof (value_bounds w w_pos t1c Wc') as Bc'. rewrite (len_eq t1c t1b Lc') in Bc'. unfold len in Bc', Vc'. rewrite Lt1b, Pm in Bc', Vc'.
       assert (k = 0) by (clear - Vc' S6 Bc' Bk C0 C2 C3 C4 HB2 HX; nia). subst k.
       exists t1c. split; [reflexivity|]. split; [lia|]. split; [exact Wc'|]. clear - Vc' S6. lia. }
   destruct Ht1c as (t1c & E16 & Lt1c & Wt1c & Vt1c). rewrite E16. cbn [Z.eqb negb].
   (* exact divisions *)
   assert (Vt2b' : val t2b = (c0 + q2 + c4') * 2) by (clear - Vt2b; lia).
-  rewrite Vt1c, Vt2b'. rewrite !Z.mod_mul, !Z.div_mul by lia. cbn [Z.eqb negb orb].
+  rewrite Vt1c, Vt2b'. rewrite !Z.mod_mul, !Z.div_mul by flia. cbn [Z.eqb negb orb].
   destruct (val_to_words_lt w w_ge m (c0 + q2 + q3 + c4') ltac:(rewrite Pm; clear - C0 C2 C3 C4 HB2 HX; nia)) as (Lu1 & Wu1 & Vu1).
   destruct (val_to_words_lt w w_ge m (c0 + q2 + c4') ltac:(rewrite Pm; clear - C0 C2 C4 HB2 HX; nia)) as (Lu2 & Wu2 & Vu2).
   set (u1 := to_words w m (c0 + q2 + q3 + c4')) in *. set (u2 := to_words w m (c0 + q2 + c4')) in *.
   (* ---- interpolation *)
   destruct (add_signed_same_len_in_place w (slice n3 m c5) (sign_neg s) u1) as [x6 k1b] eqn:E17.
-  destruct (step_signed_same w w_ge c5 n3 m (sign_neg s) u1 x6 k1b ltac:(lia) W5 Wu1 Lu1 E17) as (L6 & W6 & K1b & V6).
+  destruct (step_signed_same w w_ge c5 n3 m (sign_neg s) u1 x6 k1b ltac:(flia) W5 Wu1 Lu1 E17) as (L6 & W6 & K1b & V6).
   set (c6 := splice n3 x6 c5) in *.
   destruct (add_signed_same_len_in_place w (slice (3 * n3) m c6) s u1) as [x7 k3a] eqn:E18.
-  destruct (step_signed_same w w_ge c6 (3 * n3) m s u1 x7 k3a ltac:(lia) W6 Wu1 Lu1 E18) as (L7 & W7 & K3a & V7).
+  destruct (step_signed_same w w_ge c6 (3 * n3) m s u1 x7 k3a ltac:(flia) W6 Wu1 Lu1 E18) as (L7 & W7 & K3a & V7).
   set (c7 := splice (3 * n3) x7 c6) in *.
   destruct (add_signed_same_len_in_place w (slice (2 * n3) m c7) s u2) as [x8 k2c] eqn:E19.
-  destruct (step_signed_same w w_ge c7 (2 * n3) m s u2 x8 k2c ltac:(lia) W7 Wu2 Lu2 E19) as (L8 & W8 & K2c & V8).
+  destruct (step_signed_same w w_ge c7 (2 * n3) m s u2 x8 k2c ltac:(flia) W7 Wu2 Lu2 E19) as (L8 & W8 & K2c & V8).
   set (c8 := splice (2 * n3) x8 c7) in *.
   destruct (add_signed_same_len_in_place w (slice (3 * n3) m c8) (sign_neg s) u2) as [x9 k3b] eqn:E20.
-  destruct (step_signed_same w w_ge c8 (3 * n3) m (sign_neg s) u2 x9 k3b ltac:(lia) W8 Wu2 Lu2 E20) as (L9 & W9 & K3b & V9).
+  destruct (step_signed_same w w_ge c8 (3 * n3) m (sign_neg s) u2 x9 k3b ltac:(flia) W8 Wu2 Lu2 E20) as (L9 & W9 & K3b & V9).
   set (c9 := splice (3 * n3) x9 c8) in *.
   (* ---- deferred carries *)
   destruct (add_signed_word_in_place w (slice (2 * n3) (n3 + 2) c9) k0) as [x10 k1c] eqn:E21.
-  destruct (step_signed_word w w_ge c9 (2 * n3) (n3 + 2) k0 x10 k1c ltac:(lia) W9 ltac:(lia) E21) as (L10 & W10 & K1c & _ & V10).
-  specialize (K1c ltac:(lia)). set (c10 := splice (2 * n3) x10 c9) in *.
+  destruct (step_signed_word w w_ge c9 (2 * n3) (n3 + 2) k0 x10 k1c ltac:(flia) W9 ltac:(flia) E21) as (L10 & W10 & K1c & _ & V10).
+  specialize (K1c ltac:(flia)). set (c10 := splice (2 * n3) x10 c9) in *.
   destruct (add_signed_word_in_place w (slice (3 * n3 + 2) n3 c10) (k1a + k1b + k1c)) as [x11 k2d] eqn:E22.
-  destruct (step_signed_word w w_ge c10 (3 * n3 + 2) n3 (k1a + k1b + k1c) x11 k2d ltac:(lia) W10 ltac:(lia) E22) as (L11 & W11 & K2d & _ & V11).
-  specialize (K2d ltac:(lia)). set (c11 := splice (3 * n3 + 2) x11 c10) in *.
+  destruct (step_signed_word w w_ge c10 (3 * n3 + 2) n3 (k1a + k1b + k1c) x11 k2d ltac:(flia) W10 ltac:(flia) E22) as (L11 & W11 & K2d & _ & V11).
+  specialize (K2d ltac:(flia)). set (c11 := splice (3 * n3 + 2) x11 c10) in *.
   destruct (add_signed_word_in_place w (slice (4 * n3 + 2) n3 c11) (k2a + k2b + k2c + k2d)) as [x12 k3c] eqn:E23.
-  destruct (step_signed_word w w_ge c11 (4 * n3 + 2) n3 (k2a + k2b + k2c + k2d) x12 k3c ltac:(lia) W11 ltac:(lia) E23) as (L12' & W12'' & K3c & _ & V12'').
-  specialize (K3c ltac:(lia)). set (c12 := splice (4 * n3 + 2) x12 c11) in *.
+  destruct (step_signed_word w w_ge c11 (4 * n3 + 2) n3 (k2a + k2b + k2c + k2d) x12 k3c ltac:(flia) W11 ltac:(flia) E23) as (L12' & W12'' & K3c & _ & V12'').
+  specialize (K3c ltac:(flia)). set (c12 := splice (4 * n3 + 2) x12 c11) in *.
   destruct (add_signed_word_in_place w (slice (5 * n3 + 2) (length c12 - (5 * n3 + 2)) c12) (k3a + k3b + k3c)) as [x13 kf] eqn:E24.
-  destruct (step_signed_word w w_ge c12 (5 * n3 + 2) (length c12 - (5 * n3 + 2)) (k3a + k3b + k3c) x13 kf ltac:(lia) W12'' ltac:(lia) E24)
+  destruct (step_signed_word w w_ge c12 (5 * n3 + 2) (length c12 - (5 * n3 + 2)) (k3a + k3b + k3c) x13 kf ltac:(flia) W12'' ltac:(flia) E24)
     as (L13 & W13 & _ & _ & V13).
-  eexists _, _. split; [reflexivity|]. split; [lia|]. split; [exact W13|].
+  eexists _, _. split; [reflexivity|]. split; [flia|]. split; [exact W13|].
   (* ---- the arithmetic *)
   rewrite V13, V12'', V11, V10, V9, V8, V7, V6, V5, V4, V3, V2, V1.
   rewrite !sgnz_neg. rewrite Vu1, Vu2, Vt2a, Vone, Vcsh, Vt1s. fold c0 c4'.
@@ -306,30 +318,29 @@ Proof.
     with (c0 + q1 * X + q2 * (X * X) + q3 * (X * X * X) + c4' * (X * X * X * X)) by (subst c0 q1 q2 q3 c4'; ring).
   clearbody c0 q1 q2 q3 c4'.
   assert (Pc : BB ^ len c = BB ^ Z.of_nat (4 * n3) * BB ^ Z.of_nat (length c3 - 4 * n3)).
-  { rewrite <- pow_nat_add. unfold len. f_equal. f_equal. lia. }
+  { rewrite <- pow_nat_add. unfold len. f_equal. f_equal. flia. }
   assert (Pc' : BB ^ len c = BB ^ Z.of_nat (5 * n3 + 2) * BB ^ Z.of_nat (length c12 - (5 * n3 + 2))).
-  { rewrite <- pow_nat_add. unfold len. f_equal. f_equal. lia. }
+  { rewrite <- pow_nat_add. unfold len. f_equal. f_equal. flia. }
   assert (Q4 : BB ^ Z.of_nat (4 * n3) = X * X * X * X).
-  { replace (4 * n3)%nat with (n3 + n3 + n3 + n3)%nat by lia. rewrite !pow_nat_add. reflexivity. }
+  { replace (4 * n3)%nat with (n3 + n3 + n3 + n3)%nat by flia. rewrite !pow_nat_add. reflexivity. }
   assert (Q3 : BB ^ Z.of_nat (3 * n3) = X * X * X).
-  { replace (3 * n3)%nat with (n3 + n3 + n3)%nat by lia. rewrite !pow_nat_add. reflexivity. }
+  { replace (3 * n3)%nat with (n3 + n3 + n3)%nat by flia. rewrite !pow_nat_add. reflexivity. }
   assert (Q32 : BB ^ Z.of_nat (3 * n3 + 2) = X * X * X * (BB * BB)).
-  { rewrite pow_nat_add, Q3. cbn [Z.of_nat]. replace (BB ^ Z.pos 2) with (BB * BB) by (rewrite Z.pow_2_r; reflexivity). reflexivity. }
+  { rewrite pow_nat_add, Q3, BB_pow2. reflexivity. }
   assert (Q42 : BB ^ Z.of_nat (4 * n3 + 2) = X * X * X * X * (BB * BB)).
-  { rewrite pow_nat_add, Q4. replace (BB ^ Z.of_nat 2) with (BB * BB) by (cbn [Z.of_nat]; rewrite Z.pow_2_r; reflexivity). reflexivity. }
+  { rewrite pow_nat_add, Q4, BB_pow2. reflexivity. }
   assert (Q52 : BB ^ Z.of_nat (5 * n3 + 2) = X * X * X * X * X * (BB * BB)).
-  { replace (5 * n3 + 2)%nat with (n3 + (4 * n3 + 2))%nat by lia. rewrite pow_nat_add, Q42. fold X. ring. }
+  { replace (5 * n3 + 2)%nat with (n3 + (4 * n3 + 2))%nat by flia. rewrite pow_nat_add, Q42. fold X. ring. }
   assert (Qn2 : BB ^ Z.of_nat (n3 + 2) = X * (BB * BB)).
-  { rewrite pow_nat_add. replace (BB ^ Z.of_nat 2) with (BB * BB) by (cbn [Z.of_nat]; rewrite Z.pow_2_r; reflexivity). reflexivity. }
+  { rewrite pow_nat_add, BB_pow2. reflexivity. }
   rewrite Q52 in Pc'. rewrite Q4 in Pc.
   rewrite ?Q3, ?Q4, ?Q32, ?Q42, ?Q52, ?Qn2, ?P2, ?Pm. cbn [Z.of_nat]. rewrite ?Z.pow_0_r.
   set (Y4 := BB ^ Z.of_nat (length c3 - 4 * n3)) in *.
   set (Y5 := BB ^ Z.of_nat (length c12 - (5 * n3 + 2))) in *.
-  set (P := BB ^ len c) in *. set (W2 := BB * BB) in *.
+  set (P := BB ^ len c) in *. set (BW := BB * BB) in *.
   assert (Hc4 : kc * (X * X * X * X * Y4) = kc * P) by (rewrite Pc; ring).
-  assert (Hc5 : kf * (X * X * X * X * X * W2 * Y5) = kf * P) by (rewrite Pc'; ring).
-  clearbody X Y4 Y5 P W2. clear - Hc4 Hc5.
-  ring_simplify. ring_simplify in Hc4. ring_simplify in Hc5. lia.
+  assert (Hc5 : kf * (X * X * X * X * X * BW * Y5) = kf * P) by (rewrite Pc'; ring).
+  fold X. rewrite Z.mul_add_distr_r, <- Hc4, <- Hc5. ring.
 Qed.
 
 End ToomWProofs.
